@@ -871,7 +871,7 @@ class C11Check(PCheck):
             'tolerance), coordinates == R * baseline + t. distinct = scenario digest; non-trivial = baseline finished and at least '
             'one variant was compared')
     probes_expected = ['variant:hash', 'variant:perm', 'variant:hren', 'variant:rigid', 'variant:mem_rigid', 'variant:combo',
-                       'group_compared', 'group_failed_consistently']
+                       'group_compared', 'group_failed_consistently', 'variant_with_atom_on_origin_or_plane']
 
     def budgets(self, tier):
         if tier == 'thorough':
@@ -898,6 +898,7 @@ class C11Check(PCheck):
         if directed:
             chosen = ['hash', 'rigid', 'perm']
         variants = []
+        atoms = None
         for kind in chosen:
             v = {'kind': kind, 'present': {}}
             if kind in ('perm', 'combo'):
@@ -907,8 +908,21 @@ class C11Check(PCheck):
                 # them changes the chemistry that is recoverable, not just the presentation (DESIGN.md section 7)
                 v['present']['hren'] = rng.randrange(1 << 30)
             if kind in ('rigid', 'combo'):
-                span = 450000 if rng.random() < 0.3 else 20000      # stays inside the PDB coordinate columns      # a structure far from the origin is the same structure
+                span = 450000 if rng.random() < 0.3 else 20000      # stays inside the PDB coordinate columns
                 v['present']['rigid'] = [rng.randrange(24)] + [rng.randrange(-span, span) for _ in range(3)]
+                if rng.random() < 0.35:
+                    # boundary values: the motion puts one atom exactly on the origin, or on a coordinate plane
+                    if atoms is None:
+                        atoms = [l for l in structure.build(task['structure']) if l.startswith('ATOM')]
+                    if atoms:
+                        line = rng.choice(atoms)
+                        x = [int(round(float(line[30 + 8 * i:38 + 8 * i]) * 1000)) for i in range(3)]
+                        rot = structure.ROTATIONS[v['present']['rigid'][0]]
+                        image = [sum(rot[i][j] * x[j] for j in range(3)) for i in range(3)]
+                        axes = [0, 1, 2] if rng.random() < 0.5 else [rng.randrange(3)]
+                        for ax in axes:
+                            v['present']['rigid'][1 + ax] = -image[ax]
+                        v['zero_coordinate'] = len(axes)
             if kind == 'mem_rigid':
                 far = 80.0 if rng.random() < 0.3 else 3.0
                 v['present']['mem_rigid'] = {'matrix': random_rotation(rng), 'shift': [rng.uniform(-far, far) for _ in range(3)]}
@@ -1001,6 +1015,8 @@ class C11Check(PCheck):
         failure = None
         for v, r in zip(scenario['variants'], results[1:]):
             stats.probes['variant:' + v['kind']] += 1
+            if v.get('zero_coordinate'):
+                stats.probes['variant_with_atom_on_origin_or_plane'] += 1
             if r['outcome'] != base['outcome'] or r['finished'] != base['finished']:
                 failure = ('outcome-class', 'outcome-class', {'baseline': base['outcome'], 'variant': r['outcome'], 'kind': v['kind'],
                                                                'traceback': (r.get('traceback') or base.get('traceback') or '')[-600:]})
